@@ -7,7 +7,7 @@
      lib.VerifyCar     -- an IndexOffset of 0 is not compared with the end of the data
      lib.InspectCar    -- the CARv1 --full post-check compares how far Inspect read with the file size
      car index         -- identity CIDs are not put into the index (as LoadIndex / GenerateIndex do) *)
-From GoCar Require Import Bytes Varint Cid Header Frame V2Header Scan Index Store.
+From GoCar Require Import Bytes Varint Cid Header Frame V2Header Scan Index Store Traversal.
 
 Definition zero_v2hdr : v2hdr := mkv2 0 0 0 0 0.
 Definition max_index_cid : N := 2048.          (* carv2.DefaultMaxIndexCidSize *)
@@ -543,6 +543,60 @@ Section Cli.
     | _ => let '(ok, out) := concat_loop ver true files [] in (ok, Some out)
     end.
 End Cli.
+
+(* ---- car get-dag (cmd/car/get.go GetCarDag, writeCarV2, writeCarV1) ------------------------------------------ *)
+(* The input is opened as a read-only blockstore; the root is the argument or the archive's single
+   root.  What the traversal library then asks the store for -- the sequence of successful block
+   loads of the (root, selector) walk, root first, repeats included, and whether the walk returned
+   nil -- is the ORACLE (recorded by a reference walk with the configuration the command uses:
+   LinkVisitOnlyOnce exactly when no --selector is given; for --version 2 trusted storage and a
+   missing block skipped unless --strict; for --version 1 the root module's SelectiveCar).
+   --version 2: every load is Put into a fresh default ReadWrite blockstore with the root as its
+   only root (identity blocks dropped, one block per multihash), finalized when the walk succeeded.
+   --version 1: SelectiveCar.Write (Traversal.sc_write): header, then every CID once in load order. *)
+Definition get_dag (hdrdec : bytes -> option (list bytes * N)) (ver : N) (rootarg : option bytes)
+           (loads : list block) (walk_ok : bool) (file : bytes) (outf : option bytes)
+  : bool * option bytes :=
+  match new_reader hdrdec file with
+  | Err _ => (false, outf)
+  | Ok r =>
+    match open_readonly_index hdrdec r file with
+    | Err _ => (false, outf)
+    | Ok _ =>
+      let root : option bytes :=
+        match rootarg with
+        | Some c => Some c
+        | None => match reader_roots hdrdec r file with
+                  | Ok [c] => Some c
+                  | _ => None                  (* "does not have exactly one root" *)
+                  end
+        end in
+      match root with
+      | None => (false, outf)
+      | Some rc =>
+        if ver =? 2 then
+          (* os.Remove(output); blockstore.OpenReadWrite(output, [root], AllowDuplicatePuts(false)) *)
+          match open_new KBlockstore (filter_opts 2) false [rc] [] with
+          | Err _ => (false, Some [])
+          | Ok st =>
+            match put_each st loads with
+            | (st1, false) => (false, Some (ws_file st1))
+            | (st1, true) =>
+              if walk_ok then
+                match bs_finalize st1 with
+                | (st2, ONil) => (true, Some (ws_file st2))
+                | (st2, _) => (false, Some (ws_file st2))
+                end
+              else (false, Some (ws_file st1))
+            end
+          end
+        else if ver =? 1 then
+          (* os.Create(output); car.NewSelectiveCar(..., []Dag{{root, selector}}).Write(f) *)
+          let '(out, _, ok) := sc_write 0 [rc] loads walk_ok in (ok, Some out)
+        else (false, outf)
+      end
+    end
+  end.
 
 (* ---- the CID list of car filter (cmd/car/filter.go parseCIDS) ------------------------------------------ *)
 (* bufio.ReadLine splits at '\n' (a final line needs no terminator), strings.TrimSpace removes the
